@@ -58,7 +58,7 @@ type LeaseManager struct {
 	closed       atomic.Bool
 
 	mu      sync.RWMutex
-	owned   map[string]struct{} // key: resource identifier
+	owned   map[string]int64 // key: resource identifier, value: mod revision of the lease key we wrote
 	session *concurrency.Session
 
 	acquireFlight singleflight.Group
@@ -85,7 +85,7 @@ func NewLeaseManager(client *clientv3.Client, cfg LeaseManagerConfig) *LeaseMana
 		ttl:          ttl,
 		logger:       logger,
 		resourceKind: kind,
-		owned:        make(map[string]struct{}),
+		owned:        make(map[string]int64),
 	}
 }
 
@@ -167,7 +167,7 @@ func (m *LeaseManager) doAcquire(ctx context.Context, resourceID string) error {
 		m.mu.Unlock()
 		return fmt.Errorf("session changed during acquire")
 	}
-	m.owned[resourceID] = struct{}{}
+	m.owned[resourceID] = txnResp.Header.Revision
 	m.mu.Unlock()
 
 	m.logger.Info(fmt.Sprintf("acquired %s lease", m.resourceKind),
@@ -195,7 +195,7 @@ func (m *LeaseManager) reacquire(ctx context.Context, resourceID, leaseKey strin
 		m.mu.Unlock()
 		return fmt.Errorf("session changed during reacquire")
 	}
-	m.owned[resourceID] = struct{}{}
+	m.owned[resourceID] = txnResp.Header.Revision
 	m.mu.Unlock()
 
 	m.logger.Info(fmt.Sprintf("reacquired %s lease", m.resourceKind),
@@ -209,7 +209,7 @@ func (m *LeaseManager) getOrCreateSession(ctx context.Context) (*concurrency.Ses
 		select {
 		case <-m.session.Done():
 			m.session = nil
-			m.owned = make(map[string]struct{})
+			m.owned = make(map[string]int64)
 		default:
 			s := m.session
 			m.mu.Unlock()
@@ -252,7 +252,7 @@ func (m *LeaseManager) monitorSession(session *concurrency.Session) {
 	if m.session == session {
 		m.session = nil
 		count := len(m.owned)
-		m.owned = make(map[string]struct{})
+		m.owned = make(map[string]int64)
 		m.mu.Unlock()
 		m.logger.Warn(fmt.Sprintf("%s lease session expired, cleared all ownership", m.resourceKind),
 			"broker", m.brokerID, "count", count)
@@ -272,7 +272,7 @@ func (m *LeaseManager) Owns(resourceID string) bool {
 // Release explicitly gives up ownership of a single resource.
 func (m *LeaseManager) Release(resourceID string) {
 	m.mu.Lock()
-	_, ok := m.owned[resourceID]
+	rev, ok := m.owned[resourceID]
 	if ok {
 		delete(m.owned, resourceID)
 	}
@@ -282,7 +282,14 @@ func (m *LeaseManager) Release(resourceID string) {
 		leaseKey := m.leaseKey(resourceID)
 		ctx, cancel := context.WithTimeout(context.Background(), 5*time.Second)
 		defer cancel()
-		if _, err := m.client.Delete(ctx, leaseKey); err != nil {
+		// Delete only the key this broker wrote. Ownership was dropped above, so by
+		// the time the delete reaches etcd the session may have expired and another
+		// broker (or a newer Acquire of ours) may have re-created the key; its mod
+		// revision then differs and it must be left alone.
+		if _, err := m.client.Txn(ctx).
+			If(clientv3.Compare(clientv3.ModRevision(leaseKey), "=", rev)).
+			Then(clientv3.OpDelete(leaseKey)).
+			Commit(); err != nil {
 			m.logger.Warn(fmt.Sprintf("failed to delete %s lease key", m.resourceKind),
 				"key", leaseKey, "error", err)
 		}
@@ -296,7 +303,7 @@ func (m *LeaseManager) ReleaseAll() {
 	m.closed.Store(true)
 	m.mu.Lock()
 	count := len(m.owned)
-	m.owned = make(map[string]struct{})
+	m.owned = make(map[string]int64)
 	session := m.session
 	m.session = nil
 	m.mu.Unlock()
